@@ -4,6 +4,7 @@ import (
 	"fmt"
 	"hash/fnv"
 	"math/big"
+	"os"
 	"reflect"
 	"regexp"
 	"sort"
@@ -100,6 +101,10 @@ var fieldClass = map[string]string{
 	"mpckks.ShareToEncProtocol.ssBigint":             clsBuffer,
 	"mpckks.MaskedLinearTransformationProtocol.mask": clsBuffer,
 }
+
+// noStatic (development switch C10_NO_STATIC=1) disables the field-table comparison, so that a sensitivity run shows what
+// the dynamic oracles (state snapshots, differential results, race detector) catch on their own.
+var noStatic = os.Getenv("C10_NO_STATIC") != ""
 
 var idxRe = regexp.MustCompile(`\[[^\]]*\]`)
 
@@ -363,6 +368,9 @@ func (d diffIssue) String() string { return d.kind + "@" + d.path }
 // fresh = the constructor documents re-allocated buffers / fresh randomness (ShallowCopy): sharing them is an issue.
 // skip lists path prefixes that the constructor is documented to replace.
 func compareConfig(ref, cp *snapshot, fresh bool, shape bool, skip []string) []diffIssue {
+	if noStatic {
+		return nil
+	}
 	var out []diffIssue
 	skipped := func(p string) bool {
 		for _, s := range skip {
